@@ -15,6 +15,19 @@ TDC = os.path.join(SPEC, "Trace_Decode.cfg")
 APIS = ["byte-le", "byte-be", "sample", "iter", "channel", "stream", "verify", "frameiter", "seektable"]
 
 
+class Incident(int):
+    """an item that ended the driver process: a missed deadline (hang) or a single allocation request beyond 4 GiB (oom)"""
+    def __new__(cls, id_, kind, detail=""):
+        o = int.__new__(cls, id_)
+        o.kind = kind
+        o.detail = detail
+        return o
+
+    @property
+    def what(self):
+        return "missed its deadline" if self.kind == "hang" else "asked for a single allocation of %s bytes" % self.detail
+
+
 def generate(wd, plan_list, tag, k=12):
     """runs FlacGen over the plans (k TLC processes); returns items (dict per plan with bytes/pcm/ok/self-check)"""
     parts = [plan_list[i::k] for i in range(k)]
@@ -63,8 +76,13 @@ def decode_items(wd, items, tag, profile, apis, do_struct=False, log_data=True, 
             if p.returncode == 0:
                 break
             m = re.search(r"WATCHDOG timeout id=(\d+)", p.stderr)
-            if p.returncode == 3 and m:
-                hung.append(int(m.group(1)))
+            o = re.search(r"VERIF-OOM id=(\d+) size=(\d+)", p.stderr)
+            if p.returncode == 4 and o:
+                m = o
+                hung.append(Incident(int(o.group(1)), "oom", o.group(2)))
+            elif p.returncode == 3 and m:
+                hung.append(Incident(int(m.group(1)), "hang"))
+            if p.returncode in (3, 4) and m:
                 # keep what was recorded and continue after the item that hung
                 os.rename(tp, tp + ".part%d" % len(hung))
                 job["skip_upto"] = int(m.group(1))
@@ -170,7 +188,7 @@ def run_c03(pid):
         slim_items = [{k: it[k] for k in it if k != "plan"} for it in items]
         traces, timeouts = decode_items(wd, slim_items, "valid", profile, APIS)
         for h in timeouts:
-            v.violation("%s timeout profile=%s" % (pid, profile), "decoding item %d missed its deadline" % h, {"plan": by_id[h].get("plan")})
+            v.violation("%s %s profile=%s" % (pid, h.kind, profile), "decoding item %d %s" % (h, h.what), {"plan": by_id[h].get("plan")})
         judge(pid, traces, wd, v, by_id, counts)
     total_calls = sum(counts.values())
     rc = v.finish()
@@ -243,6 +261,20 @@ def run_c04(pid):
             continue
         items.append({"id": g["id"], "bytes": g["bytes"], "pcm": g["pcm"], "bps": p["bps"], "metaLen": g["metaLen"], "frameLens": g["frameLens"],
                       "valid": False, "class": p.get("class", ""), "plan": {k: p[k] for k in p if k != "pcm"}})
+    # metadata in front of the audio: every decoding entry point parses it on open.  Valid and damaged metadata sections
+    # (sizes, counts, lengths overwritten) from the MetaFormat model, followed by the frames of a small valid stream
+    import metachecks as MC
+    _cl, _encs, damaged = MC.damaged_metadata_sections(wd, t, rnd)
+    if t == "quick":
+        keep = [d for d in damaged if d[0].startswith("valid:")]
+        rest = [d for d in damaged if not d[0].startswith("valid:")]
+        rnd.shuffle(rest)
+        damaged = keep[:60] + rest[:700]
+    tail = next((it["bytes"][it["metaLen"]:] for it in items if it["class"] == "tiny-block-po" and it["bytes"]), [])
+    mid = 3000000
+    for cls, b in damaged:
+        mid += 1
+        items.append({"id": mid, "bytes": list(b) + list(tail), "bps": 16, "metaLen": len(b), "valid": False, "class": "meta-" + cls.split(":")[0]})
     # checksum-free damage: every single-bit flip and every truncation of two small valid streams
     small = [P.stream_plan(random.Random(5), 900001, small=True), P.stream_plan(random.Random(9), 900002, small=True)]
     for sp in small:
@@ -273,7 +305,7 @@ def run_c04(pid):
         traces, timeouts = decode_items(wd, slim_items, "mal", profile, APIS, log_data=False)
         for h in timeouts:
             it = by_id[h]
-            v.violation("%s timeout class=%s profile=%s" % (pid, it["class"], profile), "decoding item %d (%s) missed its deadline" % (h, it["class"]),
+            v.violation("%s %s class=%s profile=%s" % (pid, h.kind, it["class"], profile), "decoding item %d (%s) %s" % (h, it["class"], h.what),
                         {"plan": it.get("plan"), "bytes": it["bytes"] if len(it["bytes"]) < 6000 else None})
         judge(pid, traces, wd, v, by_id, counts)
     rc = v.finish()
@@ -357,7 +389,7 @@ def run_c17(pid):
     for profile in ("release", "checked"):
         traces, timeouts = decode_items(wd, items, "c17", profile, [], do_struct=True, log_data=True)
         for h in timeouts:
-            v.violation("%s timeout profile=%s" % (pid, profile), "structural parsing of item %d missed its deadline" % h, {"item": h})
+            v.violation("%s %s profile=%s" % (pid, h.kind, profile), "structural parsing of item %d %s" % (h, h.what), {"item": int(h)})
         for tp_, tr in parallel(lambda tp_: (tp_, tlc_trace(spec, cfg, tp_, wd, timeout=3000)), traces, n=8):
             for ln in tlc_lines(tr["out"], "STAT"):
                 m = re.match(r'<<"STAT", (\d), (\d)>>', ln)
